@@ -149,7 +149,7 @@ def decide(prop, tier, seed):
         for a in scan_assumptions(g.text):
             trusted.append(f'{un}: {a}')
         for r in g.rewrites:
-            rewrites.append(f"{un}: {r['item']}: `{r['old']}` -> `{r['new']}` x{r['count']} ({r['reason']})")
+            rewrites.append(f"{un}: {r['item']}: `{r['old'] if r['old'] is not None else '<whole arm body>'}` -> `{r['new']}` x{r['count']} ({r['reason']})")
         # failures by function
         fail_by_fn = {}
         for f in main.failures:
@@ -181,6 +181,20 @@ def decide(prop, tier, seed):
             for c in cls[:2]:
                 if len(samples) < 14:
                     samples.append(dict(obligation=f'{un}::{c.oid}', clause=c.text[:220]))
+        # lemmas (proof fns of the hand-written spec text that state a law of the property)
+        for (lname, lprops) in getattr(main.unit_obj, 'lemmas', []):
+            if prop not in lprops:
+                continue
+            st = main.fn_status.get(f'{crate}::{lname}')
+            obligations += 1
+            ok = bool(st and st.get('success'))
+            if ok:
+                discharged += 1
+                verified_fns += 1
+            else:
+                failures.append((un, verus.Failure(f'lemma {lname}', 'lemma', None, 'lemma not proved' if st else 'lemma missing from the verus run', 0, lname, [])))
+            fns_report.append(dict(function=f'lemma {lname}', file='(spec text)', unit=un, backend='verus', clauses=1, verified=ok,
+                                   smt_us=(st or {}).get('time_us'), rlimit=(st or {}).get('rlimit')))
         # failures that belong to no extracted fn (prelude lemmas): they break everything that uses the prelude
         for f in main.failures:
             if f.fn == '<prelude>':
